@@ -35,7 +35,21 @@ def old_text(i, big):
     else:
         t = "c%d CONST UINT8 %d\n" % (i, 10 + i)
     for n in range(big):
-        t += "k%dx%d CONST FLOAT64 %d.5\n" % (i, n, n)
+        # a mix of field types: their literal parameters are printed by different routines of flush.c
+        kind = n % 6
+        nm = "k%dx%d" % (i, n)
+        if kind == 0:
+            t += "%s CONST FLOAT64 %d.5\n" % (nm, n)
+        elif kind == 1:
+            t += "%s POLYNOM INDEX 0.1 0.2 0.3 0.4 0.6 0.%d\n" % (nm, 7 + n % 3)
+        elif kind == 2:
+            t += "%s LINCOM 2 INDEX 1.5 %d.25 INDEX 3 4\n" % (nm, n)
+        elif kind == 3:
+            t += "%s BIT INDEX %d 3\n" % (nm, n % 20)
+        elif kind == 4:
+            t += "%s PHASE INDEX %d\n" % (nm, n)
+        else:
+            t += "%s RECIP INDEX %d.125\n" % (nm, n + 1)
     return t
 
 
@@ -84,7 +98,8 @@ def parse_harness(out):
 
 
 class Scenario:
-    def __init__(self, sid, mods, op, big, base):
+    def __init__(self, sid, mods, op, big, base, pad=None):
+        self.pad = pad; self.env = ({"LOGNAME": "u" * pad, "HOSTNAME": "h"} if pad else None)
         self.sid = sid; self.mods = sorted(mods); self.op = op; self.big = dict(big)
         self.dir = os.path.join(base, "s%d" % sid)
         self.tmpl = os.path.join(self.dir, "tmpl")
@@ -179,11 +194,13 @@ def merge_writes(toks):
     return out
 
 
-def model_case(cl, fault, sc, chunks, oldlen, perm):
+def model_case(cl, fault, sc, chunks, oldlen, perm, late=False):
+    """late: a write error swallowed by an unchecked stdio call -- the rest of the text, the fchmod and the
+    close still happen before ferror() notices it (fextra = [write, fchmod, write])"""
     w = [1 if cl else 0, fault, len(sc.frs)]
     for k, i in enumerate(sc.frs):
         pre, post = chunks[k]
-        w += [oldlen[i], perm[k], len(pre)] + pre + [len(post)] + post + [0]
+        w += [oldlen[i], perm[k], len(pre)] + pre + [len(post)] + post + ([3, 1, -1, 1] if late else [0])
     return " ".join(str(x) for x in w)
 
 
@@ -282,6 +299,11 @@ def main():
         plan.append((mods, rng.choice(ops), big))
     errnos = ["ENOSPC", "EIO", "EACCES"]
     scs = [Scenario(n, m, o, b, base) for n, (m, o, b) in enumerate(plan)]
+    # sweep the stdio block boundary over many byte positions of the text (only the write calls are failed there):
+    # which fprintf/fputs happens to flush the block decides which result check has to notice a failed write
+    nsweep = 12 if not chk.thorough else 48
+    for q in range(nsweep):
+        scs.append(Scenario(len(scs), {0}, "metaflush", {0: 260}, base, pad=1 + (q * (3 if not chk.thorough else 1)) % 60))
     pool = ThreadPoolExecutor(max_workers=vlib.NPROC)
 
     nontriv = set()
@@ -303,7 +325,7 @@ def main():
         w = sc.work("base")
         snap = os.path.join(sc.dir, "snap")
         logp = os.path.join(sc.dir, "base.log")
-        rc, out = shimlib.run_shim(shim, w, [exe, "run", w, sc.op, sc.modarg()], log=logp, snap=snap)
+        rc, out = shimlib.run_shim(shim, w, [exe, "run", w, sc.op, sc.modarg()], log=logp, snap=snap, env=sc.env)
         sc.base_out = parse_harness(out)
         sc.base_rc = rc
         sc.calls = shimlib.read_log(logp)
@@ -360,6 +382,8 @@ def main():
         lines.append(model_case(cl, -1, sc, sc.chunks, sc.oldlen, sc.perm)); owners.append((sc, -1))
         for k in range(len(sc.toks)):
             lines.append(model_case(cl, k, sc, sc.chunks, sc.oldlen, sc.perm)); owners.append((sc, k))
+            if sc.toks[k] == "write":
+                lines.append(model_case(cl, k, sc, sc.chunks, sc.oldlen, sc.perm, late=True)); owners.append((sc, ("late", k)))
     rcm, mout = vlib.sh([drv], inp=("\n".join(lines) + "\n").encode(), timeout=1200)
     mcases = parse_model(mout)
     counts["model_cases"] = len(mcases)
@@ -425,12 +449,14 @@ def main():
     def kill_job(arg):
         sc, k = arg
         w = sc.work("kill%d" % k)
-        rc, out = shimlib.run_shim(shim, w, [exe, "run", w, sc.op, sc.modarg()], kill=k)
+        rc, out = shimlib.run_shim(shim, w, [exe, "run", w, sc.op, sc.modarg()], kill=k, env=sc.env)
         r = (sc, "kill", k) + observe(sc, w, "kill")
         shutil.rmtree(w, ignore_errors=True)
         return r
     jobs = []
     for sc in good:
+        if sc.pad:
+            continue
         ks = list(range(sc.n)) + ["end"]
         jobs += [(snap_job, (sc, k)) for k in ks]
         jobs += [(kill_job, (sc, k)) for k in range(sc.n)]
@@ -464,7 +490,10 @@ def main():
         w = sc.work("f%d_%s" % (k, en))
         snap = w + ".snap"
         logp = w + ".log"
-        rc, out = shimlib.run_shim(shim, w, [exe, "run", w, sc.op, sc.modarg()], log=logp, snap_end=snap, fail=(k, ERRNO[en]))
+        if en == "SHORT":
+            rc, out = shimlib.run_shim(shim, w, [exe, "run", w, sc.op, sc.modarg()], log=logp, snap_end=snap, short=k, env=sc.env)
+        else:
+            rc, out = shimlib.run_shim(shim, w, [exe, "run", w, sc.op, sc.modarg()], log=logp, snap_end=snap, fail=(k, ERRNO[en]), env=sc.env)
         calls = shimlib.read_log(logp)
         fin = shimlib.tree(w)
         mid = shimlib.tree(os.path.join(snap, "end")) if os.path.isdir(os.path.join(snap, "end")) else None
@@ -477,10 +506,16 @@ def main():
     fjobs = []
     for sc in good:
         for k in range(sc.n):
+            if sc.pad:
+                if sc.calls[k].name == "write":
+                    fjobs.append((sc, k, "EIO"))
+                continue
             for en in errnos:
                 fjobs.append((sc, k, en))
+            if sc.calls[k].name == "write" and sc.calls[k].arg >= 2:
+                fjobs.append((sc, k, "SHORT"))        # a short write: stdio must write the rest
             c = sc.calls[k]
-            if c.name == "openat" and (c.arg & O_CREAT_EXCL) == O_CREAT_EXCL and shimlib.is_temp_name(c.p1):
+            if not sc.pad and c.name == "openat" and (c.arg & O_CREAT_EXCL) == O_CREAT_EXCL and shimlib.is_temp_name(c.p1):
                 fjobs.append((sc, k, "EEXIST"))      # the name mktemp produced is taken: _GD_MakeTempFile retries
     fres = list(pool.map(fault_job, fjobs))
     for sc, k, en, rc, h, calls, fin, mid, raw in fres:
@@ -551,12 +586,18 @@ def main():
             spec_fail(sc, "%s/fail-%s/%s" % (sc.op.split(":")[0], call.name, key),
                       "%s with %s injected at call %d (%s): %s" % (sc.op, en, k, call.name, d), extra)
         # ---- the model (only for calls that are steps of the model)
+        if en == "SHORT":
+            counts["short_writes"] = counts.get("short_writes", 0) + 1
+            continue
         if k in sc.idxs and not problems:
             mk = sc.idxs.index(k)
             mc = model.get((sc.sid, mk))
             if mc:
                 want = merge_writes(mc["trace"])
                 got = merge_writes(toks)
+                mlate = model.get((sc.sid, ("late", mk)))
+                if got != want and mlate and got == merge_writes(mlate["trace"]):
+                    mc = mlate; want = got        # the failed write was swallowed by an unchecked stdio call
                 mflags = [first["flags"][i] for i in sc.frs] if first["flags"] is not None else None
                 # the flush never sets a flag: a fragment rewritten by force without pending changes stays unflagged
                 mc = dict(mc, mod=[m if i in sc.mods else 0 for m, i in zip(mc["mod"], sc.frs)])
@@ -575,7 +616,7 @@ def main():
         w = sc.work("d%d_%d" % (k1, uniq))
         snap = w + ".snap"; logp = w + ".log"
         rc, out = shimlib.run_shim(shim, w, [exe, "run", w, sc.op, sc.modarg()], log=logp, snap_end=snap,
-                                   fail=[(k1, ERRNO[e1]), (k2, ERRNO[e2])])
+                                   fail=[(k1, ERRNO[e1]), (k2, ERRNO[e2])], env=sc.env)
         calls = shimlib.read_log(logp)
         fin = shimlib.tree(w)
         mid = shimlib.tree(os.path.join(snap, "end")) if os.path.isdir(os.path.join(snap, "end")) else None
@@ -588,7 +629,7 @@ def main():
     djobs = []
     npairs = 10 if not chk.thorough else 60
     for sc in good:
-        if sc.n < 4:
+        if sc.n < 4 or sc.pad:
             continue
         for _ in range(npairs):
             k1 = rng.randrange(sc.n - 1)
